@@ -54,6 +54,11 @@ extern carquet_status_t carquet_row_group_writer_add_column(
     int16_t max_rep_level,
     int32_t type_length);
 
+extern void carquet_row_group_writer_set_unsigned_order(
+    carquet_row_group_writer_t* writer,
+    int column_index,
+    bool enabled);
+
 extern carquet_status_t carquet_row_group_writer_write_column(
     carquet_row_group_writer_t* writer,
     int column_index,
@@ -82,6 +87,7 @@ extern const column_chunk_info_t* carquet_row_group_writer_get_column_info(
 typedef struct writer_column_def {
     char* name;
     carquet_physical_type_t physical_type;
+    bool has_logical_type;
     carquet_logical_type_t logical_type;
     carquet_field_repetition_t repetition;
     int32_t type_length;
@@ -244,6 +250,7 @@ static carquet_status_t add_column_internal(
     col->repetition = repetition;
     col->type_length = type_length;
 
+    col->has_logical_type = logical_type != NULL;
     if (logical_type) {
         col->logical_type = *logical_type;
     }
@@ -288,6 +295,14 @@ static carquet_status_t ensure_row_group(carquet_writer_t* writer) {
             carquet_row_group_writer_destroy(writer->current_row_group);
             writer->current_row_group = NULL;
             return status;
+        }
+
+        /* min/max are ordered by the logical type: an integer column
+         * annotated as unsigned compares as unsigned */
+        if (col->has_logical_type &&
+            col->logical_type.id == CARQUET_LOGICAL_INTEGER &&
+            !col->logical_type.params.integer.is_signed) {
+            carquet_row_group_writer_set_unsigned_order(writer->current_row_group, i, true);
         }
     }
 
